@@ -12,7 +12,7 @@ use read_fonts::collections::IntSet;
 use read_fonts::{FontRef, TableProvider};
 use write_fonts::from_obj::ToOwnedTable;
 use write_fonts::tables::gdef::{
-    AttachList, AttachPoint, CaretValue, Gdef, LigCaretList, LigGlyph,
+    CaretValue, Gdef, LigCaretList, LigGlyph,
 };
 use write_fonts::tables::gpos::builders::{PairPosBuilder, ValueRecordBuilder};
 use write_fonts::tables::gpos::{
@@ -62,20 +62,16 @@ fn g(i: u16) -> GlyphId16 {
 // small items
 // ---------------------------------------------------------------------------------------------
 
-/// GDEF with a glyph class def, an attach list (two identical attach points => de-duplicated
-/// object), a ligature caret list and a mark attach class def.
+/// GDEF with a glyph class def, a ligature caret list with two caret values and a mark attach
+/// class def: 8 objects, the quick bound of the schedule search.
 fn gdef_small() -> Vec<u8> {
     let class_def: ClassDef = [(g(1), 1u16), (g(2), 1), (g(5), 3), (g(9), 2)].into_iter().collect();
-    let attach = AttachList::new(
-        [g(1), g(2)].into_iter().collect::<CoverageTable>(),
-        vec![AttachPoint::new(vec![1, 4]), AttachPoint::new(vec![1, 4])],
-    );
     let lig = LigCaretList::new(
         [g(7)].into_iter().collect::<CoverageTable>(),
         vec![LigGlyph::new(vec![CaretValue::format_1(100), CaretValue::format_1(250)])],
     );
     let mark: ClassDef = [(g(9), 1u16)].into_iter().collect();
-    let gdef = Gdef::new(Some(class_def), Some(attach), Some(lig), Some(mark));
+    let gdef = Gdef::new(Some(class_def), None, Some(lig), Some(mark));
     dump_table(&gdef).unwrap()
 }
 
@@ -186,13 +182,12 @@ fn simple_script_feature_lists(n_lookups: u16) -> (ScriptList, FeatureList) {
     (sl, fl)
 }
 
-/// GPOS with script/feature lists and one SinglePos lookup.
+/// GPOS with (empty, hence de-duplicated) script/feature lists and one SinglePos lookup.
 fn gpos_single() -> Vec<u8> {
     let cov: CoverageTable = [g(3), g(4)].into_iter().collect();
     let sp = SinglePos::format_1(cov, ValueRecord::new().with_x_advance(-40));
     let lookup = PositionLookup::Single(Lookup::new(LookupFlag::empty(), vec![sp]));
-    let (sl, fl) = simple_script_feature_lists(1);
-    let gpos = Gpos::new(sl, fl, LookupList::new(vec![lookup]));
+    let gpos = Gpos::new(Default::default(), Default::default(), LookupList::new(vec![lookup]));
     dump_table(&gpos).unwrap()
 }
 
